@@ -1,11 +1,11 @@
 #!/usr/bin/env python3
 """Copy confirmed seeded changes from /tmp/seed_out into /verif/seeded/<id>/ (patch.diff, demo.rs, notes.md, meta.json)."""
 import json, os, re, shutil, sys
-SRC = '/tmp/seed_out'; DST = '/verif/seeded'
+SRC = '/tmp/seed_out'; SRC2 = '/tmp/seed_out2'; DST = '/verif/seeded'
 res = json.load(open('/verif/tools/seed_results.json'))
 for key, r in sorted(res.items()):
     p, k = key.split('-')
-    d = os.path.join(SRC, p, k)
+    d = os.path.join(SRC2 if k in 'cd' else SRC, p, k)
     out = os.path.join(DST, key)
     if not os.path.isdir(d):
         d = out   # already saved: refresh meta.json only
@@ -25,7 +25,7 @@ for key, r in sorted(res.items()):
         'needs_to_manifest': needs,
         'files_touched': sorted(set(re.findall(r'^\+\+\+ b/(\S+)', open(os.path.join(d, 'patch.diff')).read(), re.M))),
         'confirmation': {
-            'what_i_ran': 'tools/verify_seed.sh %s %s : scratch worktree of /repo HEAD under /tmp; cargo test --offline --test seed_demo without the patch (must pass), '
+            'what_i_ran': 'tools/verify_seed.sh %s %s (SEED_DIR=/tmp/seed_out2 for c/d): scratch worktree of /repo HEAD under /tmp; cargo test --offline --test seed_demo without the patch (must pass), '
                           'git apply patch.diff, the same demo (must fail), cargo test --offline --workspace with the patch (the 74-test suite must pass); worktree removed' % (p, k),
             'verdict': verdict, 'legend': 'r0 = demo exit status without the change, r1 = with the change (101 = test failed), r2 = existing suite with the change',
         },
